@@ -94,7 +94,7 @@ pub fn def(ctx: &Ctx) -> PropDef {
         let hl = t.pick(14, 40);
         subs.push(PSub::boxed(
             format!("snapshot/{}", ty.name()),
-            t.pick(1500, 100_000),
+            t.pick(4000, 400_000),
             move || {
                 (gens::det_spec(ty, true), gens::pre_advance(&info), gens::ops(&info, hl, 600, true), any::<bool>(), gens::ops(&info, hl, 2600, true))
                     .prop_map(|(spec, pre, hist, json, cont)| Case { spec, pre, hist, json, cont })
